@@ -34,13 +34,53 @@ def B(b) -> str:
 def thin(ctx, stream, cap_quick: int, keep: int = 150):
     """a seeded sample of a large de-duplicated stream (the first `keep`
     hand-picked inputs always stay): at most cap_quick inputs in the quick
-    tier, four times as many in the thorough tier"""
+    tier, twelve times as many (in practice: nearly everything) in the thorough tier"""
     stream = list(dict.fromkeys(stream))
-    cap = cap_quick if ctx.quick else 4 * cap_quick
+    cap = cap_quick if ctx.quick else 12 * cap_quick
     if len(stream) <= cap:
         return stream
     head, tail = stream[:keep], stream[keep:]
     return head + ctx.rng.sample(tail, cap - keep)
+
+
+def queue(ctx, name, header, typ, cases, checker, report, pre=None, shard=2500):
+    """queue one correspondence (model vs implementation on `cases`); all queued
+    correspondences are evaluated together by flush(), several coqc at a time.
+    report(i) -> details of disagreeing case i; pre(i) = failing-input search
+    run on a disagreeing case before it is reported"""
+    if cases:
+        ctx.__dict__.setdefault('_c18_jobs', []).append(
+            (name, header, typ, list(cases), checker, report, pre, shard))
+
+
+def flush(ctx, workers: int = 6) -> None:
+    from concurrent.futures import ThreadPoolExecutor
+    from .. import coqrun
+    jobs = ctx.__dict__.pop('_c18_jobs', [])
+    if not jobs:
+        return
+
+    def one(job):
+        name, header, typ, cases, checker, _r, _p, shard = job
+        return coqrun.run_cases(ctx.prop, name, header, typ, cases, checker, shard=shard, jobs=4)
+    with ThreadPoolExecutor(max_workers=workers) as ex:
+        results = list(ex.map(one, jobs))
+    for job, res in zip(jobs, results):
+        name, _h, _t, _c, _k, report, pre, _s = job
+        # the bookkeeping of Ctx.run_cases
+        ctx.traces_validated += res['n'] - len(res['bad'])
+        entry = {'name': name, 'cases': res['n'], 'disagreements': len(res['bad']),
+                 'wall_s': res['wall_s']}
+        ctx.corr.append(entry)
+        if res['errors']:
+            entry['errors'] = res['errors'][:3]
+            ctx.broken.append(f'correspondence {name}: case file did not evaluate: '
+                              + res['errors'][0][-800:])
+        if pre is not None:
+            for i in res['bad'][:40]:
+                pre(i)
+        for i in res['bad'][:5]:
+            ctx.disagreement(name, report(i))
 
 
 # ------------------------------------------------------------------ impl side
@@ -266,15 +306,15 @@ def section(ctx) -> None:
                             T.boolean(bool(AString._pattern.fullmatch(b))),
                             T.boolean(bool(Tag._pattern.fullmatch(b)))))
         ctx.count(('class', c))
-    for i in ctx.run_cases('char_classes', HEADER, 'N * bool * bool * bool', cases, 'chk_class'):
-        ctx.disagreement('char_classes', {'byte': i})
+    queue(ctx, 'char_classes', HEADER, 'N * bool * bool * bool', cases, 'chk_class',
+          lambda i: {'byte': i})
 
     # --- Atom / Nil / Number
     stream = small_strings(b'a1 N]', 4 if quick else 5) \
         + sweep([b'ab1 x', b' NIL)', b'12 3', b'nIl', b'007'], vals_, not quick) \
         + [mutate(rng, rng.choice([b' atom rest', b'NIL ', b'123 ', b'  ab]c']), b'aN1 ]"{\\')
            for _ in range(ctx.scale(300, 5000))]
-    stream = thin(ctx, stream, 1200)
+    stream = thin(ctx, stream, 800)
     ca, cn, cm = [], [], []
     for buf in stream:
         ra = impl_parse(Atom, buf)
@@ -289,8 +329,7 @@ def section(ctx) -> None:
     for nm, typ, cs, chk in (('atom', 'bytes * option (bytes * bytes)', ca, 'chk_atom'),
                              ('nil', 'bytes * option bytes', cn, 'chk_nil'),
                              ('number', 'bytes * option (N * bytes)', cm, 'chk_number')):
-        for i in ctx.run_cases(nm, HEADER, typ, cs, chk, **SH)[:5]:
-            ctx.disagreement(nm, {'input': stream[i].hex()})
+        queue(ctx, nm, HEADER, typ, cs, chk, lambda i, stream=stream: {'input': stream[i].hex()})
 
     # --- QuotedString
     qbases = [b'"abc" x', b'  "a\\"b\\\\c"rest', b'""', b'"a b"\r\n', b'"\xe9\x00"']
@@ -300,7 +339,7 @@ def section(ctx) -> None:
            for _ in range(ctx.scale(300, 6000))
            for lead in (rng.choice([b'', b' ', b'   ']),)
            for tail in (rng.choice([b'', b' ', b' x', b')', b'\r\n', b'"', b'"x"']),)]
-    stream = thin(ctx, stream, 2500)
+    stream = thin(ctx, stream, 1600)
     cq = []
     for buf in stream:
         r = impl_parse(QuotedString, buf)
@@ -312,10 +351,8 @@ def section(ctx) -> None:
         else:
             cq.append(T.pair(B(buf), 'None'))
     ctx.sample({'quoted_input': stream[-1].decode('latin-1')})
-    bad = ctx.run_cases('quoted_parse', HEADER, 'bytes * option (bytes * bytes * bytes)', cq,
-                        'chk_quoted', **SH)
-    for i in bad[:5]:
-        ctx.disagreement('quoted_parse', {'input': stream[i].hex()})
+    queue(ctx, 'quoted_parse', HEADER, 'bytes * option (bytes * bytes * bytes)', cq, 'chk_quoted',
+          lambda i, stream=stream: {'input': stream[i].hex()})
 
     # --- LiteralString / String / AString with continuations and params
     lbases = [b'{3}\r\n', b'{3+}\r\nabcdef', b' ~{2}\n', b'{0}\r\n', b'{0+}\r\n x',
@@ -345,7 +382,7 @@ def section(ctx) -> None:
         stream.append((buf, tuple(conts), ps))
     big = b'x' * 4096
     stream += [(b'{4096+}\r\n' + big + b' y', (), paramsets[0]), (b'{4096}\r\n', (big + b'z',), paramsets[0])]
-    stream = thin(ctx, stream, 1800, keep=450)
+    stream = thin(ctx, stream, 1200, keep=450)
     seen = set()
     cl, cs_, cas, keep = [], [], [], []
     for buf, conts, ps in stream:
@@ -373,9 +410,9 @@ def section(ctx) -> None:
     for nm, typ, cs, chk in (('literal_parse', typ_l, cl, 'chk_literal'),
                              ('string_parse', typ_s, cs_, 'chk_string'),
                              ('astring_parse', typ_s, cas, 'chk_astring')):
-        for i in ctx.run_cases(nm, HEADER, typ, cs, chk, **SH)[:5]:
-            ctx.disagreement(nm, {'input': keep[i][0].hex(), 'conts': [c.hex() for c in keep[i][1]],
-                                  'params': keep[i][2]})
+        queue(ctx, nm, HEADER, typ, cs, chk,
+              lambda i, keep=keep: {'input': keep[i][0].hex(), 'conts': [c.hex() for c in keep[i][1]],
+                                    'params': keep[i][2]})
 
     # --- printers
     vals = list(dict.fromkeys(
@@ -391,11 +428,10 @@ def section(ctx) -> None:
                               T.boolean(isinstance(built, QuotedString)), B(bytes(built))))
         ctx.count(('print', v))
         monitor_print_parse(ctx, v)
-    for i in ctx.run_cases('string_print', HEADER, 'bytes * bytes * bytes', cp, 'chk_print_q', **SH)[:5]:
-        ctx.disagreement('string_print', {'value': vals[i].hex()})
-    for i in ctx.run_cases('literal_print', HEADER, 'bool * bytes * bytes * bool * bytes', cpl,
-                           'chk_print_l', **SH)[:5]:
-        ctx.disagreement('literal_print', {'value': vals[i // 2].hex(), 'binary': bool(i % 2)})
+    queue(ctx, 'string_print', HEADER, 'bytes * bytes * bytes', cp, 'chk_print_q',
+          lambda i, vals=vals: {'value': vals[i].hex()})
+    queue(ctx, 'literal_print', HEADER, 'bool * bytes * bytes * bool * bytes', cpl, 'chk_print_l',
+          lambda i, vals=vals: {'value': vals[i // 2].hex(), 'binary': bool(i % 2)})
 
     # --- spelling monitor on the parser: all applicable spellings agree
     n = 0
